@@ -101,7 +101,7 @@ def count_sites(block):
     for st in block:
         if st[0] == "site":
             n += 1
-        elif st[0] == "if":
+        elif st[0] in ("if", "mif"):
             n += count_sites(st[2]) + count_sites(st[3])
         elif st[0] == "while":
             n += count_sites(st[2])
@@ -114,11 +114,24 @@ def has(block, kind):
     for st in block:
         if st[0] == kind:
             return True
-        if st[0] == "if" and (has(st[2], kind) or has(st[3], kind)):
+        if st[0] in ("if", "mif") and (has(st[2], kind) or has(st[3], kind)):
             return True
         if st[0] == "while" and has(st[2], kind):
             return True
     return False
+
+
+def to_match(block):
+    """the same program with every `if` written as a `match` statement"""
+    out = []
+    for st in block:
+        if st[0] == "if":
+            out.append(("mif", st[1], to_match(st[2]), to_match(st[3])))
+        elif st[0] == "while":
+            out.append(("while", st[1], to_match(st[2])))
+        else:
+            out.append(st)
+    return tuple(out)
 
 
 def programs(size, conds=("i0", "i1", "n0"), awaits=("i0", "i1", "and", "true", "false"), calls=(0, 1, 2, 3, 4), depth=3):
@@ -155,7 +168,7 @@ class Flat:
             if st[0] == "site":
                 self.nsites += 1
                 self.site_no[(lid, idx)] = self.nsites
-            elif st[0] == "if":
+            elif st[0] in ("if", "mif"):
                 self.child[(lid, idx, 0)] = self._add("blk", st[2])
                 self.child[(lid, idx, 1)] = self._add("blk", st[3])
             elif st[0] == "while":
@@ -196,6 +209,13 @@ def render(prog, reset=None, entity="T", on_reset=False, c04=False):
                 if st[3]:
                     lines.append(pre + "else:")
                     lines += block(f.child[(lid, idx, 1)], ind + 1, env)
+            elif k == "mif":
+                # the same two-way branch written as a match statement on the (Bit valued) condition
+                lines.append(pre + "match " + COND[st[1]][0].replace("self.", env + ".") + ":")
+                lines.append(pre + "    case 1:")
+                lines += block(f.child[(lid, idx, 0)], ind + 2, env)
+                lines.append(pre + "    case _:")
+                lines += block(f.child[(lid, idx, 1)], ind + 2, env) if st[3] else [pre + "        pass"]
             elif k == "while":
                 c = "True" if st[1] == "T" else COND[st[1]][0].replace("self.", env + ".")
                 lines.append(pre + f"while {c}:")
@@ -400,7 +420,7 @@ class RefMachine:
                         continue
                 mode = WAIT
                 break
-            elif k == "if":
+            elif k in ("if", "mif"):
                 first = False
                 if COND[st[1]][1](inp, self.v):
                     stack.append((f.child[(lid, idx, 0)], 0))
@@ -482,7 +502,7 @@ def render_pygen(prog):
                               pre + "    yield",
                               pre + f"    while not env.aw({st[1]!r}):",
                               pre + "        yield"]
-            elif k == "if":
+            elif k in ("if", "mif"):
                 lines += [pre + "env.first = False", pre + f"if env.cond({st[1]!r}):"]
                 lines += block(f.child[(lid, idx, 0)], ind + 1)
                 if st[3]:
